@@ -223,6 +223,146 @@ def _lin(n, var):
     return _linear(n, var)
 
 
+def _linform(e):
+    """linear form {symbol: coefficient, 1: constant} of an index expression, or None"""
+    e = strip(e)
+    if e is None:
+        return None
+    cv = const_value(e)
+    if cv is not None:
+        return {1: cv}
+    if e["k"] == "DeclRefExpr":
+        return {e["n"]: 1}
+    if e["k"] == "MemberExpr":
+        return {render(e): 1}
+    if e["k"] == "BinaryOperator" and e["op"] in ("+", "-"):
+        a, b = _linform(e["c"][0]), _linform(e["c"][1])
+        if a is None or b is None:
+            return None
+        out = dict(a)
+        for k, v in b.items():
+            out[k] = out.get(k, 0) + (v if e["op"] == "+" else -v)
+        return {k: v for k, v in out.items() if v != 0 or k == 1}
+    if e["k"] == "BinaryOperator" and e["op"] == "*":
+        a, b = _linform(e["c"][0]), _linform(e["c"][1])
+        if a is not None and b is not None and set(a) <= {1}:
+            return {k: v * a.get(1, 0) for k, v in b.items()}
+        if a is not None and b is not None and set(b) <= {1}:
+            return {k: v * b.get(1, 0) for k, v in a.items()}
+    return None
+
+
+def _part_ref(e):
+    """(node var, index expr, field) for node->part[index].field"""
+    e = strip(e)
+    if e is None or e["k"] != "MemberExpr" or e["n"] not in ("key", "entry", "branch"):
+        return None
+    a = strip(e["c"][0])
+    if a is None or a["k"] != "ArraySubscriptExpr":
+        return None
+    arr, idx = strip(a["c"][0]), a["c"][1]
+    if arr is None or arr["k"] != "MemberExpr" or arr["n"] != "part":
+        return None
+    nd = strip(arr["c"][0])
+    if nd is None or nd["k"] != "DeclRefExpr":
+        return None
+    return nd["n"], idx, e["n"]
+
+
+def v11(rep, rule="V11"):
+    """A node with n keys has n+1 branches.  Whenever a run of keys is copied or slid by a loop -- into the new node of a split,
+    into the left node of a merge, up or down inside a node to make or close a gap -- the branches of the same run are moved by a
+    loop of their own, and the run of branches reaches one place further than the run of keys (the branch to the right of the
+    last key).  A branch loop that stops where the key loop stops leaves the last subtree behind: it becomes unreachable and its
+    neighbour appears twice (in the store's free-piece index: pieces that can no longer be found, then a fault in stoAlloc).
+    For every function of btree.c and every (destination node, source node) with both a key loop and a branch loop, the highest
+    source index of the branch loop is the highest source index of the key loop plus one."""
+    f = common.extract("btree.c", all_trees=True)
+    n = 0
+    for name, fn in sorted(f.funcs.items()):
+        if "body" not in fn or not fn.get("file", "").endswith("btree.c"):
+            continue
+        runs = {}
+        for lp in walk(fn["body"]):
+            if lp["k"] != "ForStmt":
+                continue
+            init, cond, inc, body = strip(lp["c"][0]), strip(lp["c"][-3]) if len(lp["c"]) >= 4 else None, None, lp["c"][-1]
+            # ForStmt children: init, (condvar), cond, inc, body
+            kids_ = lp["c"]
+            init, cond, inc, body = strip(kids_[0]), strip(kids_[-3]), strip(kids_[-2]), kids_[-1]
+            copies = []
+            for x in walk(body):
+                if x["k"] == "BinaryOperator" and x["op"] == "=":
+                    d, s_ = _part_ref(x["c"][0]), _part_ref(x["c"][1])
+                    if d is not None and s_ is not None and d[2] == s_[2]:
+                        copies.append((d, s_, x))
+            if not copies:
+                continue
+            if init is None or init["k"] != "BinaryOperator" or init["op"] != "=" or (strip(init["c"][0]) or {}).get("k") != "DeclRefExpr" or \
+                    cond is None or cond["k"] != "BinaryOperator" or inc is None or inc["k"] != "UnaryOperator":
+                raise AnalysisBroken("%s:%d: a loop that copies node parts but is not `for (j = a; j <op> b; j++/--)`" % (name, lp["l"]))
+            jv = strip(init["c"][0])["n"]
+            a = _linform(init["c"][1])
+            # the index test is the conjunct that compares the loop variable
+            tests = []
+
+            def conj(e):
+                e = strip(e)
+                if e is not None and e["k"] == "BinaryOperator" and e["op"] == "&&":
+                    conj(e["c"][0]); conj(e["c"][1])
+                elif e is not None:
+                    tests.append(e)
+            conj(cond)
+            t0 = [t for t in tests if t["k"] == "BinaryOperator" and (strip(t["c"][0]) or {}).get("n") == jv and t["op"] in ("<", "<=", ">", ">=")]
+            if len(t0) != 1 or a is None:
+                raise AnalysisBroken("%s:%d: the bound of the copying loop is not a comparison of its index" % (name, lp["l"]))
+            b = _linform(t0[0]["c"][1])
+            up = inc["op"] in ("++", "post++")
+            if b is None or (up and t0[0]["op"] not in ("<", "<=")) or (not up and t0[0]["op"] not in (">", ">=")):
+                raise AnalysisBroken("%s:%d: loop direction and bound do not fit" % (name, lp["l"]))
+            if len(tests) > 1:
+                continue            # a search-and-shift loop (stops at the insertion point): keys only, bounded by data
+            if up:
+                hi = dict(b)
+                if t0[0]["op"] == "<":
+                    hi[1] = hi.get(1, 0) - 1
+            else:
+                hi = dict(a)
+            for d, s_, x in copies:
+                si = _linform(s_[1])
+                if si is None or si.get(jv) != 1:
+                    raise AnalysisBroken("%s:%d: source index %s is not the loop index plus an offset" % (name, x["l"], render(s_[1])))
+                top = dict(hi)
+                for k, v in si.items():
+                    if k != jv:
+                        top[k] = top.get(k, 0) + v
+                top = {k: v for k, v in top.items() if v != 0}
+                runs.setdefault((d[0], s_[0]), {}).setdefault(d[2], []).append((top, x))
+        for (dn, sn), flds in sorted(runs.items()):
+            if "key" not in flds or "branch" not in flds:
+                continue
+            if len(flds["key"]) != 1 or len(flds["branch"]) != 1:
+                raise AnalysisBroken("%s: several key or branch loops for %s <- %s" % (name, dn, sn))
+            (kt, kx), (bt, bx) = flds["key"][0], flds["branch"][0]
+            diff = dict(bt)
+            for k, v in kt.items():
+                diff[k] = diff.get(k, 0) - v
+            diff = {k: v for k, v in diff.items() if v != 0}
+            n += 1
+            key = "branch-run-one-longer:%s:%s<-%s" % (name, dn, sn)
+            if diff == {1: 1}:
+                rep.ok(rule, key)
+            elif set(diff) <= {1}:
+                rep.violation(rule, key, "btree.c:%d (%s)" % (bx["l"], name),
+                              "the loop that moves the branches of node `%s` stops at source index (last key)%+d; a run of keys is "
+                              "followed by one more branch than keys, so the branch to the right of the last key moved is left "
+                              "behind: that subtree becomes unreachable and its neighbour is linked twice (in the store's index of "
+                              "free pieces: pieces that cannot be found again, then a fault inside stoAlloc)" % (sn, diff.get(1, 0)))
+            else:
+                raise AnalysisBroken("%s: the ends of the key run and the branch run of %s <- %s differ by %s" % (name, dn, sn, diff))
+    rep.floor("key/branch runs moved together in btree.c", n, 6)
+
+
 def v6(rep):
     """B-tree node layout: a node with n keys has n+1 branches, key j sits between branch j and branch j+1.  When a rotation moves
     the *last* key of a node (index n-1) out of it, the branch that goes with it is the last branch (index n); when it moves the
@@ -582,6 +722,7 @@ def run(tier, only=None):
     v8(rep)
     v9(rep)
     v10(rep)
+    v11(rep)
     try:
         v5(rep)
     except AnalysisBroken as e:
